@@ -4,11 +4,45 @@
 #include <symengine/real_double.h>
 #include <symengine/mul.h>
 #include <cctype>
+#include <functional>
+#include <symengine/functions.h>
+#include <symengine/logic.h>
+#include <symengine/ntheory_funcs.h>
+#include "../contracts/C17/name_spec.h"
 using namespace SymEngine;
+// the name tables (clause "function names mapped to the corresponding library functions"): every name of the specification,
+// parse("name(args)") on the real parser against the direct call of the specified library function
+typedef RCP<const Basic> B;
+struct N1 { const char *name; std::function<B(const B &)> f; const char *fn; };
+struct N2 { const char *name; std::function<B(const B &, const B &)> f; const char *fn; };
+struct NV { const char *name; std::function<B(const vec_basic &)> f; const char *fn; };
+#define X1(n, f) {n, [](const B &a) -> B { return f(a); }, #f},
+#define X2(n, f) {n, [](const B &a, const B &b) -> B { return f(a, b); }, #f},
+#define XV(n, f) {n, [](const vec_basic &v) -> B { return f(v); }, #f},
+static int replay_names()
+{
+    std::vector<N1> s1 = {SPEC_SINGLE(X1) SPEC_SINGLE_BOOL(X1)};
+    std::vector<N2> s2 = {SPEC_DOUBLE(X2) SPEC_DOUBLE_BOOL(X2)};
+    std::vector<NV> sv = {SPEC_MULTI(XV)};
+    B x = symbol("x"), y = symbol("y"), z = symbol("z");
+    int bad = 0;
+    auto cmp = [&](const std::string &src, const B &want, const char *fn) {
+        try {
+            B got = parse(src);
+            if (!eq(*got, *want)) { std::cout << "parse(\"" << src << "\") = " << got->__str__() << " ; " << fn << " of the same arguments = " << want->__str__() << "\nREPRODUCED: the name is not mapped to the library function " << fn << "\n"; bad = 1; }
+        } catch (SymEngineException &e) { std::cout << "parse(\"" << src << "\") threw " << e.what() << "\nREPRODUCED: a conventional function name is rejected\n"; bad = 1; }
+    };
+    for (auto &e : s1) cmp(std::string(e.name) + "(x)", e.f(x), e.fn);
+    for (auto &e : s2) cmp(std::string(e.name) + "(x, y)", e.f(x, y), e.fn);
+    for (auto &e : sv) cmp(std::string(e.name) + "(x, y, z)", e.f({x, y, z}), e.fn);
+    if (!bad) std::cout << "every listed name of the one-, two- and many-argument tables parses to its library function (boolean-argument tables not replayed)\n";
+    return bad;
+}
 int main(int argc, char **argv)
 {
     if (argc < 2) return 3;
     Args a = parse_args(argc, argv);
+    if (has(a, "names")) return replay_names();
     if (!has(a, "s")) return 2;
     std::string s = a["s"];
     if (std::string(argv[1]).find("implicit_mul") != std::string::npos) {
